@@ -350,11 +350,11 @@ def v1Step (dt : Data α) (ω : Draws α) (st : State α) : State α := iter dt.
 
 /-! ### conjugate precision blocks -/
 
-def sq (x : α) : α := x * x
+def sqr (x : α) : α := x * x
 
 /-- `_prec_W0_step` -/
 def tau0Args (dt : Data α) (st : State α) : GammaArgs α :=
-  ⟨dt.a0 + half * natTo dt.nC, 1 / (dt.b0 + half * sumN dt.nC (fun c => sq (st.W0 c)) + eps)⟩
+  ⟨dt.a0 + half * natTo dt.nC, 1 / (dt.b0 + half * sumN dt.nC (fun c => sqr (st.W0 c)) + eps)⟩
 
 def precW0Step (dt : Data α) (ω : Draws α) (st : State α) : State α :=
   let a := tau0Args dt st
@@ -366,10 +366,10 @@ def occ (dt : Data α) (m : Nat) : α :=
 
 /-- `_prec_V0_step`: four draws (`phiaux0`, `phi0`, `etaaux0`, `eta0`) -/
 def phi0auxScale (st : State α) (m : Nat) : α := 1 / (1 + st.phi0 m)
-def phi0Scale (st : State α) (aux : Nat → α) (m : Nat) : α := 1 / (aux m + half * st.eta0 * sq (st.V0 m) + eps)
+def phi0Scale (st : State α) (aux : Nat → α) (m : Nat) : α := 1 / (aux m + half * st.eta0 * sqr (st.V0 m) + eps)
 def eta0auxScale (st : State α) : α := 1 / (1 + st.eta0)
 def eta0Args (dt : Data α) (st : State α) (aux : α) : GammaArgs α :=
-  ⟨half * (1 + natTo dt.nT), 1 / (aux + half * sumN dt.nT (fun m => st.phi0 m * sq (st.V0 m)) + eps)⟩
+  ⟨half * (1 + natTo dt.nT), 1 / (aux + half * sumN dt.nT (fun m => st.phi0 m * sqr (st.V0 m)) + eps)⟩
 
 def precV0Step (dt : Data α) (ω : Draws α) (st : State α) : State α :=
   let s1 := st.push ⟨.phi0aux, .gamma, (1 : α) :: flatVec dt.nT (phi0auxScale st)⟩
@@ -383,7 +383,7 @@ def precV0Step (dt : Data α) (ω : Draws α) (st : State α) : State α :=
 def precArgs (dt : Data α) (st : State α) : GammaArgs α :=
   if dt.N = 0 then ⟨dt.a0, 1 / dt.b0⟩
   else ⟨dt.a0 + half * natTo dt.N,
-        1 / (dt.b0 + half * sumN dt.N (fun n => sq (dt.y n - st.Mu n)) + eps)⟩
+        1 / (dt.b0 + half * sumN dt.N (fun n => sqr (dt.y n - st.Mu n)) + eps)⟩
 
 def precObsStep (dt : Data α) (ω : Draws α) (st : State α) : State α :=
   let a := precArgs dt st
@@ -393,11 +393,11 @@ def precObsStep (dt : Data α) (ω : Draws α) (st : State α) : State α :=
 /-- `_prec_V2_step` / `_prec_V1_step` share their shape; `V`, `phi`, `eta` are the block's arrays -/
 def phiAuxScale (phi : Nat → Nat → α) (m d : Nat) : α := 1 / (1 + phi m d)
 def phiScale (V : Nat → Nat → α) (eta : Nat → α) (aux : Nat → Nat → α) (m d : Nat) : α :=
-  1 / (aux m d + half * eta d * sq (V m d) + eps)
+  1 / (aux m d + half * eta d * sqr (V m d) + eps)
 def etaAuxScale (eta : Nat → α) (d : Nat) : α := 1 / (1 + eta d)
 def etaShape (dt : Data α) : α := half * (1 + natTo dt.nT)
 def etaScale (dt : Data α) (V phi : Nat → Nat → α) (aux : Nat → α) (d : Nat) : α :=
-  1 / (aux d + half * sumN dt.nT (fun m => phi m d * sq (V m d)) + eps)
+  1 / (aux d + half * sumN dt.nT (fun m => phi m d * sqr (V m d)) + eps)
 
 def precV2Step (dt : Data α) (ω : Draws α) (st : State α) : State α :=
   let s1 := st.push ⟨.phi2aux, .gamma, (1 : α) :: flatMat dt.nT dt.D (phiAuxScale st.phi2)⟩
@@ -423,7 +423,7 @@ def cumprod (g : Nat → α) (e : Nat) : α := prodN (e + 1) g
 
 def gamArgs (dt : Data α) (W : Nat → Nat → α) (g : Nat → α) (d : Nat) : GammaArgs α :=
   let a : α := if d = 0 then 2 + half * natTo dt.nC * natTo dt.D else 3 + half * natTo dt.nC * natTo (dt.D - d)
-  let s : α := sumN dt.nC (fun c => sumN dt.D (fun e => if d ≤ e then cumprod g e / g d * sq (W c e) else 0))
+  let s : α := sumN dt.nC (fun c => sumN dt.D (fun e => if d ≤ e then cumprod g e / g d * sqr (W c e) else 0))
   ⟨a, 1 / (1 + half * s + eps)⟩
 
 def gamBlock (dt : Data α) (ω : Draws α) (d : Nat) (st : State α) : State α :=
